@@ -1,6 +1,7 @@
 package mj
 
 import (
+	"errors"
 	"io"
 	"reflect"
 
@@ -49,7 +50,34 @@ func EngineRun(p *Program, funcs map[string]jet.Func) (jetrun.Outcome, jet.VarMa
 	if p.Data != nil {
 		data = Build(*p.Data)
 	}
+	if p.BrokenFirst > 0 {
+		func() {
+			defer func() { recover() }()
+			vars0 := jet.VarMap{}
+			for k, v := range vars {
+				vars0[k] = v
+			}
+			var data0 interface{}
+			if p.Data != nil {
+				data0 = Build(*p.Data)
+			}
+			_ = t.Execute(&brokenWriter{left: p.BrokenFirst}, vars0, data0)
+		}()
+	}
 	return jetrun.Exec(t, vars, data), vars, src
+}
+
+// brokenWriter accepts left bytes and fails from then on.
+type brokenWriter struct{ left int }
+
+func (w *brokenWriter) Write(b []byte) (int, error) {
+	if len(b) <= w.left {
+		w.left -= len(b)
+		return len(b), nil
+	}
+	n := w.left
+	w.left = 0
+	return n, errors.New("broken pipe")
 }
 
 // ModelRun executes p on the reference interpreter. discard != "" means the
